@@ -1,4 +1,5 @@
 import Tibc.Props.C10
+import Tibc.Expect.Packet
 #print axioms Tibc.C10.clean_accept_iff_source
 #print axioms Tibc.C10.recvclean_accepted_only_with_proof
 #print axioms Tibc.C10.recvclean_accepted_with_proof
